@@ -237,6 +237,7 @@ def run(ctx, rep):
             rep.check("C16.c", f"{key}/read-after-warm-up/{i}", ok and has_r, where=where(E, r),
                       what=f"{key}: the cold pack read happens only after a successful warm_up_wait" if ok else f"{key}: a cold pack read is reachable WITHOUT a preceding successful warm_up_wait")
     rule_e(ctx, rep)
+    warm_up_list_rule(ctx, rep)
     # ---- C16.d -------------------------------------------------------------------------------------
     SC = prog.find1(r"^rustic_core::commands::config::save_config$")
     SH = prog.find1(r"^rustic_core::commands::config::save_config_hot$")
@@ -260,6 +261,56 @@ def run(ctx, rep):
     if st:
         saves = [bb for bb, t in SH.calls() if "callee" in t and re.search(r"save_file_uncompressed$", callee(t))]
         rep.check("C16.d", "save_config_hot/set-before-save", bool(saves) and all(C.dominates(SH, st[0][0], x) for x in saves), where=SH.loc(), what="is_hot is set before the hot config is saved")
+
+
+_DROPS = re.compile(r"Iterator::(skip|skip_while|take|take_while|step_by|filter_map|map_while|filter|flat_map|nth)$"
+                    r"|Itertools::(dedup_by|dedup_by_with_count|unique_by|step|batching|take_while_ref|take_while_inclusive|while_some|filter_ok|filter_map_ok|coalesce|k_smallest\w*)$"
+                    r"|Vec::<T, A>::(dedup_by|dedup_by_key|retain|retain_mut|truncate|drain|pop|remove|swap_remove|split_off|clear)$")
+
+
+def warm_up_list_rule(ctx, rep):
+    """C16.c (restore): the list handed to warm_up_wait is RestorePlan::to_packs(); it must name every pack restore will read:
+    every entry of the plan that is not served by an existing file contributes its pack id. Decided on the iterator chain:
+    the only element-dropping step is one `filter` whose predicate holds for an entry none of whose file locations match
+    (evaluated with `matches` = false), everything else is a projection to the pack id, a duplicate removal on pack ids or
+    the collection."""
+    prog = ctx.prog
+    TP = prog.find1(r"^rustic_core::commands::restore::RestorePlan::to_packs$")
+    drops = [(bb, t) for bb, t in TP.calls() if "callee" in t and (_DROPS.search(callee(t)) or _DROPS.search(callee_decl(t)))]
+    filters = [(bb, t) for bb, t in drops if re.search(r"Iterator::filter$", callee(t))]
+    other = [(bb, t) for bb, t in drops if not re.search(r"Iterator::filter$", callee(t))]
+    what_bad = [f"{callee_decl(t).rsplit('::', 1)[-1]} at {where(TP, bb)}" for bb, t in other]
+    rep.check("C16.c", "restore/warm-up-list/no-entry-dropped", not other and len(filters) <= 1, where=TP.loc(),
+              what="RestorePlan::to_packs drops plan entries only through its one needs-the-pack filter" if not other and len(filters) <= 1 else
+                   f"RestorePlan::to_packs removes plan entries before deciding whether their pack is needed ({what_bad or 'several filters'}): packs that restore reads are missing from the warm-up list")
+    for bb, t in filters:
+        cl = None
+        for a_ in t["args"][1:]:
+            for d_ in TP.defs().get(op_local(a_), []):
+                if d_[0] == "stmt" and d_[4][0] == "agg" and d_[4][1][0] == "closure":
+                    cl = prog.bodies.get(d_[4][1][1])
+        ok = False
+        if cl is not None:
+            # inner closures: their result with every `matches` flag false
+            inner = {}
+            for ic in prog.closures_of(cl, recursive=False):
+                vals = bool_result_under(ic, lambda b_, e_: False if (e_[0] in ("path", "proj") and "matches" in [str(x) for x in e_[2]]) else None)
+                inner[ic.path] = vals
+
+            def ev(b_, e_):
+                if e_[0] in ("path", "proj") and "matches" in [str(x) for x in e_[2]]:
+                    return False
+                if e_[0] == "call" and re.search(r"Iterator(>)?::(all|any)$", e_[1]) and len(e_[2]) > 1:
+                    c_ = e_[2][1]
+                    if c_[0] == "agg" and c_[1][0] == "closure" and inner.get(c_[1][1]) == {True} and e_[1].endswith("all"):
+                        return True       # all(always true) is true for every list, the empty one included
+                    if c_[0] == "agg" and c_[1][0] == "closure" and inner.get(c_[1][1]) == {False} and e_[1].endswith("any"):
+                        return False
+                return None
+            ok = bool_result_under(cl, ev) == {True}
+        rep.check("C16.c", "restore/warm-up-list/unmatched-entries-kept", ok, where=where(TP, bb),
+                  what="an entry none of whose file locations is already present keeps its pack in the warm-up list" if ok else
+                       "the filter of RestorePlan::to_packs can drop an entry whose data must be read from its pack: that pack is read from the cold store without warm-up")
 
 
 def rule_e(ctx, rep):
